@@ -38,6 +38,9 @@ type IPath struct {
 	// Blocks: the basic blocks traversed – the root's own path first, then, as a contiguous run each, the path taken through
 	// every opened helper (in call order)
 	Blocks []*ssa.BasicBlock
+	// Subs: what the opened calls returned on this path (the root's vocabulary): a term that an evaluation elsewhere left
+	// as a call of a nested helper can be resolved with it
+	Subs []valueSub
 }
 
 type inlineOpts struct {
@@ -317,6 +320,23 @@ func inlinedOver(p *core.Prog, f *ssa.Function, rps []core.RetPath, o inlineOpts
 							for ri, r := range ip.Results {
 								ns = append(ns, valueSub{x, fmt.Sprint(ri), applySubs(liftWithEnv(rp.Env, r, x), subs[i])})
 							}
+							// the nested helpers the callee opened: the caller's evaluator may have looked through the callee (a one-line
+							// forwarder) and left a call of the nested helper in a term
+							for _, is := range ip.Subs {
+								repl := applySubs(liftWithEnv(rp.Env, is.repl, x), subs[i])
+								dup := false
+								for k := range ns {
+									if ns[k].site == is.site && ns[k].idx == is.idx {
+										dup = true
+										if ns[k].repl.Key() != repl.Key() {
+											ns[k].repl = &core.Term{Op: "unknown", Name: "ambiguous-nested-call"}
+										}
+									}
+								}
+								if !dup {
+									ns = append(ns, valueSub{is.site, is.idx, repl})
+								}
+							}
 							next = append(next, np)
 							nextSubs = append(nextSubs, ns)
 						}
@@ -335,6 +355,7 @@ func inlinedOver(p *core.Prog, f *ssa.Function, rps []core.RetPath, o inlineOpts
 			for _, r := range rp.Results {
 				cur[i].Results = append(cur[i].Results, applySubsCall(r, subs[i]))
 			}
+			cur[i].Subs = subs[i]
 			if feasibleX(cur[i].Atoms) {
 				out = append(out, cur[i])
 			}
